@@ -15,6 +15,9 @@
 //   sync.Cond fields: `x.cond.Wait()` → vsched.CondWait(x.cond,"cond") with the two sites
 //   Wait:cond (enqueue + unlock) and Wake:cond (signalled + relock); `x.cond.Signal()` →
 //   Signal:cond; `x.cond.Broadcast()` → Broadcast:cond.
+//   With -plain f,g (opt-in): every statement that reads or writes a PLAIN (non-atomic) field named f or g gets a
+//   point `Access:<field>` in front of it, so the harness can preempt a thread between an atomic publication
+//   and the plain access it is supposed to order (e.g. `cell.seq.Store(..)` vs `cell.ctx`).
 //   With -syncmap (opt-in, off by default): every method call on a sync.Map field is a point
 //   `Map<Method>:<field>` (e.g. `m.senders.Load(k)` → MapLoad:senders, CompareAndDelete → MapCompareAndDelete:senders).
 package main
@@ -53,6 +56,7 @@ var (
 	condFields = map[string]string{} // field name -> "Cond" | "*Cond"
 	mapFields  = map[string]bool{}   // field names of type sync.Map / *sync.Map
 	syncMapOn  bool                  // -syncmap: sync.Map method calls are points
+	plainOn    = map[string]bool{}   // -plain f,g: plain fields whose accesses are points
 	mapMethods = map[string]bool{"Load": true, "Store": true, "LoadOrStore": true, "LoadAndDelete": true, "Delete": true,
 		"Swap": true, "CompareAndSwap": true, "CompareAndDelete": true, "Range": true, "Clear": true}
 )
@@ -172,6 +176,12 @@ func atomicLabels(n ast.Node) []string {
 	ast.Inspect(n, func(nd ast.Node) bool {
 		if _, ok := nd.(*ast.FuncLit); ok {
 			return false
+		}
+		if se, ok := nd.(*ast.SelectorExpr); ok && plainOn[se.Sel.Name] {
+			l := "Access:" + se.Sel.Name
+			if len(out) == 0 || out[len(out)-1] != l {
+				out = append(out, l)
+			}
 		}
 		call, ok := nd.(*ast.CallExpr)
 		if !ok {
@@ -523,6 +533,11 @@ func main() {
 			}
 		case "-syncmap":
 			syncMapOn = true
+		case "-plain":
+			i++
+			for _, f := range strings.Split(os.Args[i], ",") {
+				plainOn[f] = true
+			}
 		case "-entry":
 			i++
 			for _, f := range strings.Split(os.Args[i], ",") {
